@@ -204,7 +204,10 @@ def check_loops(rep, runs):
             reads = [e for e in body if e.kind == "call" and e.data[0] in (DS + ".get_mem", DS + ".inc_index") and
                      len(e.data[1]) >= 2 and L in e.loops]
             progress = or_(*[rel(e.guard) for e in reads]) if reads else FALSE
-            leave = [rel(e.guard) for e in body if e.kind in ("break", "return", "raise", "exit") and L in e.loops and e.loops[-1] is L]
+            # (a return / break only leaves this loop when it belongs to the loop's own activation: helpers called in the
+            # body return all the time)
+            leave = [rel(e.guard) for e in body if e.kind in ("break", "return", "raise", "exit") and L in e.loops and e.loops[-1] is L
+                     and (e.kind in ("raise", "exit") or (e.func == L.func and len(e.stack) == len(L.stack)))]
             cont = and_(*[not_(c) for c in leave])
             ok = False
             why = ""
@@ -312,7 +315,29 @@ def check_barriers_all_modes(rep, prog):
             okf, env = implies(fm.norm(D.guard), fm.arg("file"))
             rep.check(okf, rule, "exit_on_error is requested on the --file path only", D.func, D.node,
                       "exit_on_error=%r outside the --file path" % (a[2],), node=D.node)
-    # the --file branch itself ends with exit(0)
+    # every way the command line ends the process: status 0 or 1 (None = 0, a message string = 1), nothing computed from the input
+    nx = 0
+    for e in ev:
+        if e.kind != "exit" or fm.norm(e.guard) == FALSE:
+            continue
+        nx += 1
+        code = fm.norm(e.data[1][0]) if e.data[1] else NONE
+        texty = isinstance(code, Const) and isinstance(code.v, str) or (isinstance(code, Op) and code.op in ("fmt", "concat", "fv", "m:format", "mod_format"))
+        okc = texty or code in (NONE, Const(0), Const(1), Const(False), Const(True))
+        if not okc and isinstance(code, Ite):
+            alts = []
+
+            def lv_(t):
+                if isinstance(t, Ite):
+                    lv_(t.a), lv_(t.b)
+                else:
+                    alts.append(t)
+            lv_(code)
+            okc = all(a in (NONE, Const(0), Const(1), Const(False), Const(True)) or (isinstance(a, Const) and isinstance(a.v, str)) for a in alts)
+        rep.check(okc, rule, "%s:%s the process ends with status 0 or 1" % (e.func.split(".")[-1], getattr(e.node, "lineno", "?")), e.func, e.node,
+                  "the exit status is computed (%s): with malformed input the command ends with a status other than 0 or 1" % (repr(code)[:120],),
+                  node=e.node)
+    rep.count("exit sites of the command line", nx)
     return fm
 
 
@@ -390,4 +415,10 @@ def run(rep, prog, thorough):
     # ... and the callout subsection is accounted by the bytes actually read, not by what a size byte claims (shared with C01)
     check_callout_accounting(rep, prog, pfx="C05.R5-prefix-rejection")
     check_getcallouts_progress(rep, prog)
+    # ... and whether the callout subsection is read at all depends on the header flag only, never on bytes peeked without a
+    # range check (past the end such a peek yields 0 and the truncated log is accepted)
+    from .c01 import check_src_consumption, run_sectionfun
+    for plug in (True, False):
+        I5, st5, _ = run_sectionfun(prog, 0x5053, plug)
+        check_src_consumption(rep, I5, st5, "sectionFun(PS)%s" % ("" if plug else " -P"))
     rep.note("R5 (every proper prefix of a well-formed PEL is rejected) is derived from R1 + C01.R4 (exact consumption), not re-proved here")
